@@ -579,6 +579,8 @@ class World:
         self.last_progress = self.now
         self.change_seq += 1
 
+    stop_on_failure = True
+
     def fail(self, oracle: str, signature: str, message: str) -> None:
         """Record an oracle failure (first one wins for reporting)."""
         self.failures.append((oracle, signature, message))
@@ -881,6 +883,8 @@ class World:
         `quiet` virtual seconds, at most max_wait.  True if it got quiet."""
         end = self.now + max_wait
         while self.now < end and not self.hung and not self.deadlock:
+            if self.failures and self.stop_on_failure:
+                return False
             if self._busy():
                 # pending work that does not show as data movement counts as progress
                 self.last_progress = self.now
